@@ -15,9 +15,9 @@ function the code computes the root with.
 import math
 from fractions import Fraction
 
-from xfabsa import numeric as N, numeval
-from xfabsa.core import AnalysisError
-from xfabsa.poly import Rat, ATOM_ARGS, RADICAND, sqrt_of
+from . import numeric as N, numeval
+from .core import AnalysisError
+from .poly import Rat, ATOM_ARGS, RADICAND, sqrt_of
 
 RANGES = {"arctan2": (Fraction(-1), Fraction(1)), "arccos": (Fraction(0), Fraction(1)),
           "arcsin": (Fraction(-1, 2), Fraction(1, 2)), "arctan": (Fraction(-1, 2), Fraction(1, 2))}
@@ -25,7 +25,7 @@ RANGES = {"arctan2": (Fraction(-1), Fraction(1)), "arccos": (Fraction(0), Fracti
 
 def decompose(w):
     """w = sum c_a * a + q*pi -> ([(c_a, a)], q) or None"""
-    from xfabsa.symeval import scalar
+    from .symeval import scalar
     w = scalar(w)
     atoms = sorted(a for a in w.atoms() if a != "pi")
     terms = []
@@ -90,7 +90,7 @@ def cos_sin(w):
 
 
 def _single(r):
-    from xfabsa.poly import single_atom
+    from .poly import single_atom
     return single_atom(r)
 
 
@@ -150,3 +150,20 @@ def witness_outside(w, conditions, points):
         if not (-math.pi < v <= math.pi + 1e-12):
             return {"at": {k: round(float(x), 6) for k, x in pt.items()}, "value": v}
     return None
+
+
+def same_angle(x, y, constraints):
+    """two sums of principal values denote the same angle: equal cosine and sine, and both in (-pi, pi] by their ranges and
+    the comparisons the path has passed"""
+    dx, dy = decompose(x), decompose(y)
+    if dx is None or dy is None:
+        return False
+
+    def principal(d):
+        return bool(d[0]) and all(a in ATOM_ARGS and ATOM_ARGS[a][0] in RANGES for _c, a in d[0])
+    if not (principal(dx) and principal(dy)):
+        return False
+    cx, cy = cos_sin(x), cos_sin(y)
+    if cx is None or cy is None or not (cx[0].equals(cy[0]) and cx[1].equals(cy[1])):
+        return False
+    return in_principal_range(x, constraints) is True and in_principal_range(y, constraints) is True
